@@ -2,6 +2,10 @@
 from lib import dsls as D
 
 DET_ENUMS = ["hs", "hs_bucket", "bs", "bps", "cd"]
+U_ENUMS = ["hs_u", "hs_bucket_u"]
+ALL_ENUMS = DET_ENUMS + U_ENUMS
+# constraint strings for sharpened multi-start grammars: "(head pattern...)" over the generated primitives
+
 
 
 def gen_grammar(rng, small=False):
@@ -24,11 +28,39 @@ def gen_grammar(rng, small=False):
 
 
 def fuel_of(g):
-    return (g["max_depth"] if g["kind"] == "cfg" else g["max_size"]) + 2
+    return (g["max_size"] if g["kind"] == "size" else g["max_depth"]) + 2
+
+
+def gen_u_grammar(rng):
+    g = gen_grammar(rng, small=True)
+    g["kind"] = "ucfg"
+    g.setdefault("max_depth", 3)
+    g.setdefault("min_var", 1)
+    g.pop("max_size", None)
+    g["forbidden"] = []
+    funs = [p for p in g["prims"] if p[1][0] == 1]
+    leaves = [p for p in g["prims"] if p[1][0] != 1]
+    if funs and leaves and rng.random() < 0.5:
+        # sharpen: forbid one leaf as first argument of one function (gives several start states)
+        f = rng.choice(funs)
+        nargs = len(D.arrow_parts(f[1])[0])
+        allowed = [p for p in leaves if p[0] != rng.choice(leaves)[0]]
+        pat = "^" + ",".join("p%d" % p[0] for p in leaves if p not in allowed) if len(allowed) < len(leaves) else "_"
+        g["kind"] = "udfta"
+        g["constraints"] = ["(p%d %s)" % (f[0], " ".join([pat] + ["_"] * (nargs - 1)))]
+        g["u_ngram"] = rng.choice([0, 0, 2])
+        g["min_var"] = 0
+    return g
 
 
 def gen_case(rng, enum=None, small=False):
     enum = enum or rng.choice(DET_ENUMS)
+    if enum in U_ENUMS:
+        g = gen_u_grammar(rng)
+        w = {"kind": rng.choice(["uniform", "random", "random", "skewed", "ties"]), "seed": rng.randrange(10 ** 6)}
+        params = {"bucket_size": rng.choice([2, 3, 5])} if enum == "hs_bucket_u" else {}
+        return {"kind": enum + "/" + g["kind"] + "/" + w["kind"], "grammar": g, "weights": w, "enum": enum,
+                "params": params, "limit": 4000, "max_lang": 600}
     g = gen_grammar(rng, small=small or enum == "bs")
     if enum in ("bs", "bps", "cd"):
         g["kind"] = "cfg"
